@@ -12,7 +12,9 @@ THEOREMS = ["H5V.Props.C04." + t for t in [
     "C04_tok_step_decreases", "C04_tok_step_keeps_invariant", "C04_tok_measure_below_fuel", "C04_tok_run_terminates",
     "C04_tok_run_terminates_fuelFor", "C04_tok_fuel_irrelevant", "C04_tok_fuelFor_is_enough", "C04_tok_initial_inv",
     "C04_tok_feed_terminates", "C04_tok_feed_keeps_invariant", "C04_tok_session_feed_terminates", "C04_tok_eof_loop_total",
-    "C04_tok_suspend_drains", "C04_tok_finish_total", "C04_tok_finish_pause_witness"]] + [
+    "C04_tok_suspend_drains", "C04_tok_finish_total", "C04_tok_finish_pause_witness",
+    "C04_tok_finish_eof_last", "C04_tok_initial_quiet", "C04_tok_step_stops_quiet", "C04_tok_feed_stops_quiet",
+    "C04_tok_end_run_never_pauses", "C04_tok_end_total", "C04_tok_session_end_total", "C04_tok_feed_end_total"]] + [
     "H5V.Model.HtmlTok." + t for t in ["step_safe", "crStep_safe", "entityLookup_valid", "numericValue_ok",
                                        "step_dec", "step_tinv", "transChar_base", "crStep_term", "lookup_runCh"]] + [
     # xml5ever tokenizer (Props/C04Xml.lean)
